@@ -147,7 +147,7 @@ Proof. exact lookup_digit_alias. Qed.
 (* ---- lookup, in general -----------------------------------------------------------
    Every (port, address) the walk reports is found by apropos - any depth, '#N'
    at any level, leaf names with several '#'.  Side conditions: names of the
-   documented shape ([lok]: sub-tree ports one component "text/" / "text#N/",
+   documented shape ([lok]: sub-tree ports one or more components "text/" / "text#N/",
    7-bit literal text without : { * #, no two '#N' adjacent, a leaf name starts
    with a literal character other than '/' and does not end in '/'), and
    [lookup_disjoint]: no path is answered by two ports of one table, where a
